@@ -68,7 +68,7 @@ LIB_ADDITIVE = {"Cost_Sat", "Cardinality_Sat", "Effort_Sat", "Relative_Cardinali
 
 # measures whose per-voter value depends on the OTHER voters (read through the profile object): their per-ballot score
 # caches are defined only for a fixed electorate, so they are kept out of the in-place-mutation histories
-HISTORY_EXCLUDED = set()
+HISTORY_EXCLUDED = {"Effort_Sat"}
 
 POOLS = [
     [0, 1, 1, 2, 2, 3],
